@@ -4356,25 +4356,55 @@ class TensorDictBase(MutableMapping):
                 idx = (*idx, Ellipsis)
             idx_names = convert_ellipsis_to_idx(idx, self.batch_size)
             # this will convert a [None, :, :, 0, None, 0] in [None, 0, 1, None, 3]
+            # Index arrays (tensors, arrays, lists, ranges, masks) are replaced, as in torch, by the dims of their
+            # broadcast shape: in place when they are adjacent, in front when a slice or None separates them.
             count = 0
             idx_to_take = []
-            no_more_tensors = False
+            adv_pos = None  # position of the broadcast dims among the dims of the result
+            adv_dim = None  # dim indexed by the first index array
+            adv_ndim = 0  # number of broadcast dims
+            n_adv = 0
+            adv_is_mask = False
+            sep_after_adv = False
+            disjoint = False
             for _idx in idx_names:
                 if _idx is None:
                     idx_to_take.append(None)
+                    sep_after_adv = adv_pos is not None
                 elif _is_number(_idx):
                     count += 1
-                elif isinstance(_idx, (torch.Tensor, np.ndarray)):
-                    if not no_more_tensors:
-                        idx_to_take.extend([count] * _idx.ndim)
-                        count += 1
-                        no_more_tensors = True
+                elif isinstance(_idx, (torch.Tensor, np.ndarray, list, range)):
+                    is_mask = (
+                        isinstance(_idx, torch.Tensor) and _idx.dtype is torch.bool
+                    ) or (
+                        isinstance(_idx, np.ndarray) and _idx.dtype == np.dtype("bool")
+                    )
+                    if adv_pos is None:
+                        adv_pos = len(idx_to_take)
+                        adv_dim = count
+                        adv_is_mask = is_mask
+                    elif sep_after_adv:
+                        disjoint = True
+                    n_adv += 1
+                    if is_mask or isinstance(_idx, (list, range)):
+                        adv_ndim = max(adv_ndim, 1)
+                        # a mask indexes as many dims as it has
+                        count += _idx.ndim if is_mask else 1
                     else:
-                        # skip this one
+                        adv_ndim = max(adv_ndim, _idx.ndim)
                         count += 1
                 else:
                     idx_to_take.append(count)
                     count += 1
+                    sep_after_adv = adv_pos is not None
+            if adv_pos is not None:
+                # a single index array keeps the name of the dim it indexes (repeated if it has several dims),
+                # a mask or several index arrays give unnamed dims
+                block = [adv_dim if (n_adv == 1 and not adv_is_mask) else None] * adv_ndim
+                if disjoint:
+                    idx_to_take = block + idx_to_take
+                else:
+                    idx_to_take = idx_to_take[:adv_pos] + block + idx_to_take[adv_pos:]
             names = [names[i] if i is not None else None for i in idx_to_take]
         if all(name is None for name in names):
             return None
